@@ -81,7 +81,8 @@ func (p *printer) n(label string, n int) int {
 }
 
 func (p *printer) pct(label string, pct int) bool {
-	return rapid.IntRange(0, 99).Draw(p.t, label) < pct
+	// drawn so that shrinking (towards 0) turns the option off
+	return rapid.IntRange(0, 99).Draw(p.t, label) >= 100-pct
 }
 
 func isHexDigit(b byte) bool {
@@ -104,7 +105,7 @@ func (p *printer) quoted(v string, mode int) string {
 	var b strings.Builder
 	b.WriteByte('"')
 	prevHex := false
-	upper := mode != 0 && p.n("hexcase", 3) == 0
+	upper := mode != 0 && p.n("hexcase", 3) == 2
 	hex := func(s string) {
 		for i := 0; i < len(s); i++ {
 			if upper {
@@ -216,6 +217,15 @@ func (p *printer) quoted(v string, mode int) string {
 	return b.String()
 }
 
+// quotedNoCollide: numbers and booleans given as strings never use the deliberate
+// "\xHH then raw hex digit" class (it is explored on string values only).
+func (p *printer) quotedNoCollide(v string, mode int) string {
+	c := p.collide
+	p.collide = false
+	defer func() { p.collide = c }()
+	return p.quoted(v, mode)
+}
+
 func isBlankLine(l string) bool { return strings.TrimLeftFunc(l, unicode.IsSpace) == "" }
 
 func canHeredoc(v string) bool {
@@ -300,7 +310,7 @@ func (p *printer) heredoc(v string, flush bool, closeIndent string) string {
 		if flush && !isBlankLine(l) {
 			b.WriteString(ind)
 			r, _ := utf8.DecodeRuneInString(l)
-			if unicode.In(r, unicode.M, unicode.Cf, unicode.Sk) {
+			if unicode.In(r, unicode.M) || r == 0x200c || r == 0x200d || (r >= 0x1f3fb && r <= 0x1f3ff) {
 				p.cls("flush-line-starts-with-extender")
 			}
 		}
@@ -398,7 +408,7 @@ func (p *printer) intExpr(v int64) string {
 		return dec
 	case 3, 4:
 		p.cls("num-as-string")
-		return p.quoted(dec, []int{0, 0, 1, 2}[p.n("nsm", 4)])
+		return p.quotedNoCollide(dec, []int{0, 0, 1, 2}[p.n("nsm", 4)])
 	case 5:
 		p.cls("num-exotic")
 		if neg {
@@ -461,7 +471,7 @@ func (p *printer) boolExpr(v bool) string {
 		return lit
 	case 4, 5:
 		p.cls("bool-as-string")
-		return p.quoted(lit, []int{0, 1, 2}[p.n("bsm", 3)])
+		return p.quotedNoCollide(lit, []int{0, 1, 2}[p.n("bsm", 3)])
 	case 6:
 		p.cls("bool-as-string")
 		if v {
@@ -752,12 +762,12 @@ func (p *printer) arrange(items []*node) []*node {
 	for _, it := range items {
 		if p.wild > 0 {
 			switch p.n("deco", 12) {
-			case 0:
+			case 9:
 				out = append(out, &node{Kind: "blank"})
 				p.cls("blank-line")
-			case 1:
+			case 10:
 				out = append(out, &node{Kind: "comment", Text: p.lineComment()})
-			case 2:
+			case 11:
 				out = append(out, &node{Kind: "blank"}, &node{Kind: "comment", Text: p.lineComment()}, &node{Kind: "blank"})
 				p.cls("blank-line")
 			}
